@@ -586,7 +586,7 @@ func (w *sxWorld) apply(toks []string) (obs string) {
 		id := w.raw(toks[1])
 		var target *ServerSession
 		for ss := range w.server.Sessions() {
-			if ss.ID() == id {
+			if id != "" && ss.ID() == id { // (no reference: nothing to close — never the temporary session of a stateless POST)
 				target = ss
 			}
 		}
@@ -936,6 +936,138 @@ func (g *sxGen) learn(op []string, obs string) {
 	}
 }
 
+// sxScenario returns a scripted prefix that sets up one of the races the property text names, on top of
+// which the random operations continue: several users' POSTs in progress at once on one (unbound) session,
+// DELETE racing POSTs in progress, the idle timeout expiring around the end of a POST / around a DELETE or a
+// server-side close, the event store failing on each close path, stray ids on a stateless endpoint.
+func sxScenario(rng *rand.Rand, g *sxGen) (ops []string, tag string) {
+	u := func() string { return sxUsers[rng.Intn(3)] }
+	fl := func() []string {
+		if g.es && rng.Intn(2) == 0 {
+			f := []string{"c", "cO", "co", "c", "coOar", "O"}[rng.Intn(6)]
+			g.flags = f
+			return []string{"fault " + f}
+		}
+		return nil
+	}
+	if g.stateless {
+		// stray ids (never minted, s-names of nothing) with every method and every identity
+		for i := 0; i < 3+rng.Intn(4); i++ {
+			ref := []string{"s1", "s2", "x1", "x7", "-"}[rng.Intn(5)]
+			usr := sxUsers[rng.Intn(len(sxUsers))]
+			switch rng.Intn(5) {
+			case 0:
+				ops = append(ops, fmt.Sprintf("get %s %s", ref, usr))
+			case 1:
+				ops = append(ops, fmt.Sprintf("delete %s %s", ref, usr))
+			case 2:
+				ops = append(ops, fmt.Sprintf("other %s %s", ref, usr))
+			case 3:
+				ops = append(ops, fmt.Sprintf("post %s %s %s", ref, usr, []string{"init", "ping", "notif", "slow"}[rng.Intn(4)]))
+			default:
+				if ref == "-" {
+					ref = "s1"
+				}
+				ops = append(ops, fmt.Sprintf("close %s", ref))
+			}
+		}
+		return ops, "scn-stateless-ids"
+	}
+	switch rng.Intn(6) {
+	case 0:
+		// POSTs of several users in progress at once on one unbound session, then DELETE, releases in any order
+		ops = append(ops, "post - anon init")
+		n := 2 + rng.Intn(3)
+		for i := 0; i < n; i++ {
+			ops = append(ops, fmt.Sprintf("post s1 %s slow", sxUsers[rng.Intn(len(sxUsers))]))
+		}
+		ops = append(ops, fl()...)
+		ops = append(ops, fmt.Sprintf("delete s1 %s", u()))
+		ops = append(ops, fmt.Sprintf("post s1 %s ping", u()))
+		for _, k := range rng.Perm(n) {
+			if rng.Intn(4) == 0 {
+				ops = append(ops, fmt.Sprintf("abandon %d", k+1))
+			}
+			ops = append(ops, fmt.Sprintf("release %d", k+1))
+		}
+		return ops, "scn-multi-user-posts"
+	case 1:
+		// DELETE racing POSTs in progress on a bound session; a second DELETE and a server-side close on top
+		o := u()
+		ops = append(ops, fmt.Sprintf("post - %s init", o), fmt.Sprintf("post s1 %s slow", o), fmt.Sprintf("post s1 %s slow", o))
+		ops = append(ops, fl()...)
+		ops = append(ops, fmt.Sprintf("delete s1 %s", o), fmt.Sprintf("delete s1 %s", g.otherUser(o)), fmt.Sprintf("delete s1 %s", o))
+		if rng.Intn(2) == 0 {
+			ops = append(ops, "close s1")
+		}
+		ops = append(ops, fmt.Sprintf("post s1 %s ping", o), "release 2", fmt.Sprintf("get s1 %s", o), "release 1")
+		return ops, "scn-delete-vs-posts"
+	case 2:
+		// the idle timeout expires exactly at / one ms around the end of a POST
+		o := u()
+		d := []int{99, 100, 101}[rng.Intn(3)]
+		ops = append(ops, fmt.Sprintf("post - %s init", o), fmt.Sprintf("post s1 %s slow", o), fmt.Sprintf("tick %d", g.timeout+rng.Intn(3)))
+		ops = append(ops, "release 1", fmt.Sprintf("tick %d", d-1), fmt.Sprintf("post s1 %s ping", o), fmt.Sprintf("tick %d", d))
+		ops = append(ops, fmt.Sprintf("post s1 %s ping", o))
+		return ops, "scn-timeout-vs-post-end"
+	case 3:
+		// the idle timeout expires while an abandoned POST's handler still runs, then DELETE / close race the dying session
+		o := u()
+		ops = append(ops, fmt.Sprintf("post - %s init", o), fmt.Sprintf("post s1 %s slow", o), "abandon 1")
+		ops = append(ops, fl()...)
+		ops = append(ops, fmt.Sprintf("tick %d", []int{99, 100, 101}[rng.Intn(3)]))
+		if rng.Intn(2) == 0 {
+			ops = append(ops, fmt.Sprintf("delete s1 %s", o))
+		} else {
+			ops = append(ops, "close s1")
+		}
+		ops = append(ops, "tick 1", fmt.Sprintf("post s1 %s ping", o), "release 1", fmt.Sprintf("post s1 %s ping", o))
+		return ops, "scn-timeout-vs-close"
+	case 4:
+		// server-side close and DELETE of the same session at the deadline, the event store failing
+		o := u()
+		ops = append(ops, fmt.Sprintf("post - %s init", o), fmt.Sprintf("post - %s init", g.otherUser(o)))
+		ops = append(ops, fl()...)
+		ops = append(ops, fmt.Sprintf("tick %d", []int{99, 100}[rng.Intn(2)]))
+		if rng.Intn(2) == 0 {
+			ops = append(ops, "close s1", fmt.Sprintf("delete s1 %s", o), "close s2")
+		} else {
+			ops = append(ops, fmt.Sprintf("delete s1 %s", o), "close s1", fmt.Sprintf("delete s2 %s", o))
+		}
+		ops = append(ops, "tick 1", fmt.Sprintf("get s1 %s", o), fmt.Sprintf("get s2 %s", o))
+		return ops, "scn-close-vs-delete-at-deadline"
+	default:
+		// every way a session ends, with SessionClosed failing at that moment
+		o := u()
+		ops = append(ops, fmt.Sprintf("post - %s init", o), fmt.Sprintf("post - %s init", o), fmt.Sprintf("post - %s init", o))
+		if g.es {
+			g.flags = "c"
+			ops = append(ops, "fault c")
+		}
+		ops = append(ops, fmt.Sprintf("delete s1 %s", o), "close s2", fmt.Sprintf("post - %s badinit", o), fmt.Sprintf("postx %s init", o),
+			fmt.Sprintf("tick %d", g.timeout), fmt.Sprintf("post s3 %s ping", o))
+		return ops, "scn-close-paths-store-failing"
+	}
+}
+
+// sxExhaustive enumerates every history of `depth` operations over a small alphabet on one session of user u1
+// (a second user and an unbound identity take part), started by `post - u1 init`.
+func sxExhaustive(depth int, f func(ops []string)) {
+	alpha := []string{"post s1 u1 slow", "post s1 u2 ping", "post s1 u1 ping", "delete s1 u1", "delete s1 u2", "get s1 u1",
+		"tick 100", "tick 99", "release 1", "abandon 1", "close s1"}
+	var rec func(prefix []string)
+	rec = func(prefix []string) {
+		if len(prefix) == depth {
+			f(append([]string{"reset stateful 100", "post - u1 init"}, prefix...))
+			return
+		}
+		for _, a := range alpha {
+			rec(append(append([]string(nil), prefix...), a))
+		}
+	}
+	rec(nil)
+}
+
 func sxResultTags(obs string) []string {
 	f := strings.Fields(obs)
 	if len(f) == 0 {
@@ -1063,6 +1195,23 @@ func TestVerifSessions(t *testing.T) {
 			op, _ := g.faultOp()
 			ops = append(ops, op)
 		}
-		sxRunCase(t, out, fmt.Sprintf("g%d", c), ops, g, 10+rng.Intn(28), "")
+		tag0 := ""
+		if rng.Intn(100) < 30 {
+			// a scripted race as the prefix of the history (it replaces the opening sessions: it numbers its own)
+			scn, tag := sxScenario(rng, g)
+			ops = append([]string{reset}, scn...)
+			tag0 = tag
+		}
+		sxRunCase(t, out, fmt.Sprintf("g%d", c), ops, g, 10+rng.Intn(28), tag0)
 	}
+	// every short history on one session (exhaustive: depth 3 quick, depth 4 thorough)
+	depth := verifN(3, 4)
+	if os.Getenv("VERIF_CASES") != "" {
+		depth = 2
+	}
+	k := 0
+	sxExhaustive(depth, func(ops []string) {
+		sxRunCase(t, out, fmt.Sprintf("x%d", k), ops, nil, 0, "exhaustive")
+		k++
+	})
 }
